@@ -122,3 +122,79 @@ func c20FileRef(c *core.C, k int) {
 	c.Nontrivial(key)
 	c.Distinct("fileref_plants", plant.name+"/"+where+"/"+cmdName)
 }
+
+// ---- format -w --exit-code ---------------------------------------------------------------------------------------
+// The rewriting variant of `buf format --exit-code`: status 100 exactly when a file was (had to be) rewritten, the
+// files on disk afterwards equal the formatter's own output, and a second run over the rewritten tree exits 0.
+
+func c20FormatWriteCases(tier string) int {
+	if tier == "thorough" {
+		return 12
+	}
+	return 4
+}
+
+func c20FormatWrite(c *core.C, k int) {
+	base := filepath.Join(c.Tmp, "c20fw")
+	os.RemoveAll(base)
+	defer os.RemoveAll(base)
+	formatted := "syntax = \"proto3\";\n\npackage acme.fw.v1;\n\n// A is a message.\nmessage A {\n  // S.\n  string s = 1;\n}\n"
+	ugly := "syntax = \"proto3\";\npackage acme.fw.v1;\n\n\n// B is a message.\nmessage B {\n\n\n  // T.\n  string   t   =   1;\n}\n"
+	dirty := k%2 == 0
+	withDiff := (k/2)%2 == 1
+	files := map[string]string{
+		"buf.yaml":                 "version: v2\nmodules:\n  - path: proto\n",
+		"proto/acme/fw/v1/a.proto": formatted,
+	}
+	if dirty {
+		files["proto/acme/fw/v1/b.proto"] = ugly
+	} else {
+		files["proto/acme/fw/v1/b.proto"] = strings.Replace(formatted, "A", "B", -1)
+	}
+	ws, ref := filepath.Join(base, "ws"), filepath.Join(base, "ref")
+	if err := run.WriteTree(ws, files); err != nil {
+		c.Note("write: %v", err)
+		return
+	}
+	env := run.BufEnv(filepath.Join(c.Tmp, "home"), nil)
+	// ground truth: the formatter's output into another directory
+	if o := run.Buf(ws, env, nil, "format", "-o", ref); o.Code != 0 {
+		c.Violation("format-failed", "format-write setup", fmt.Sprintf("buf format -o failed: %d %s", o.Code, c20Clip(o.Stderr)), nil)
+		return
+	}
+	want := run.Snapshot(ref) // `format -o <dir>` writes module-relative paths
+	differs := run.DiffSnap(run.Snapshot(filepath.Join(ws, "proto")), want) != ""
+	if differs != dirty {
+		c.Violation("harness-workload-invalid", "format-write", fmt.Sprintf("dirty=%v but byte comparison says differs=%v", dirty, differs), nil)
+		return
+	}
+	args := []string{"format", "-w", "--exit-code"}
+	if withDiff {
+		args = append(args, "-d")
+	}
+	key := fmt.Sprintf("format-write dirty=%v diff=%v", dirty, withDiff)
+	o := run.Buf(ws, env, nil, args...)
+	c.Eval(1)
+	c.Count("format_write_runs", 1)
+	wantCode := 0
+	if dirty {
+		wantCode = 100
+	}
+	if o.Code != wantCode {
+		c.Violation(map[bool]string{true: "report-without-status-100", false: "status-100-without-report"}[dirty], key,
+			fmt.Sprintf("buf %s exited %d, want %d (the tree %s the formatter's output); stdout=%s stderr=%s", strings.Join(args, " "), o.Code, wantCode,
+				map[bool]string{true: "differs from", false: "equals"}[dirty], c20Clip(o.Stdout), c20Clip(o.Stderr)), nil)
+	}
+	if withDiff && dirty != (len(bytes.TrimSpace(o.Stdout)) > 0) {
+		c.Violation("format-diff-output", key, fmt.Sprintf("buf %s: diff printed=%v, tree differs=%v", strings.Join(args, " "), len(o.Stdout) > 0, dirty), nil)
+	}
+	if d := run.DiffSnap(want, run.Snapshot(filepath.Join(ws, "proto"))); d != "" {
+		c.Violation("format-write-result", key, fmt.Sprintf("after buf %s the files differ from the formatter's output: %s", strings.Join(args, " "), d), nil)
+	}
+	o2 := run.Buf(ws, env, nil, args...)
+	c.Eval(1)
+	if o2.Code != 0 {
+		c.Violation("status-100-without-report", key+" second-run", fmt.Sprintf("a second buf %s over the rewritten tree exited %d, want 0; stdout=%s", strings.Join(args, " "), o2.Code, c20Clip(o2.Stdout)), nil)
+	}
+	c.Nontrivial(key)
+}
